@@ -883,7 +883,12 @@ let do_solo tokens =
       in
       let at = match kv rest "frozen_at" with Some s -> s | None -> "?" in
       if steps > budget then oracle "[C21]" (Printf.sprintf "thread %s frozen at step %s runs alone for %d steps (budget %d)" tid at steps budget);
-      if contains res "panic" then oracle "[C21]" (Printf.sprintf "thread %s frozen at step %s, running alone, ends in %s" tid at res)
+      (* C21 is about termination and waiting: the bounded spin that gives up ("Exceeding retries") IS a wait for another
+         thread; any other panic ends the call - it is a no-panic matter (C03), e.g. the Tree::put assertion after an
+         Online race (finding D16) *)
+      if contains res "panic" then
+        oracle (if contains res "Exceeding retries" then "[C21]" else "[C03]")
+          (Printf.sprintf "thread %s frozen at step %s, running alone, ends in %s" tid at res)
   | [] -> failwith "bad SOLO"
 
 let tag_of_hfail text =
